@@ -60,6 +60,10 @@ def execute(sc: dict, seed: int) -> dict:
     for tz in sc["tzs"]:
         w = SimWorld(seed ^ hash_tz(tz), lane="c07", tz=tz)
         try:
+            rr0 = harness.run_scenario(dict(base, faults=[]), w, trace_mode="none", name="untraced")
+            if not rr0["outcome"]["ok"] or len(rr0["exec_log"]) != len(base["nodes"]):
+                stats["discarded_base_mismatch"] = 1
+                return {"violations": [], "stats": stats, "digests": [bd], "nontrivial": []}
             subs = [("none", -1, dict(base, faults=[]))]
             if unres and rng.random() < 0.6:
                 kind, k = rng.choice(unres)
@@ -80,8 +84,9 @@ def execute(sc: dict, seed: int) -> dict:
                 stats["subruns"] = stats.get("subruns", 0) + 1
                 if kind in ("none", "stall"):
                     if not oc["ok"] or len(rr["exec_log"]) != len(base["nodes"]):
-                        stats["discarded_base_mismatch"] = 1
-                        return {"violations": [], "stats": stats, "digests": [bd], "nontrivial": []}
+                        viols.append(oracles.V("tracing", "traced_fault_free_run_raised", f"untraced run returned, traced run raised "
+                                               f"{oc.get('exc_type')}: {oc.get('exc_msg')} (TZ={tz}, detail={detail})"))
+                        continue
                 if kind == "unresolvable" and (oc["ok"] or oc.get("exc_type") != "KeyError" or len(rr["exec_log"]) != k + 1):
                     stats["subrun_not_as_planned"] = stats.get("subrun_not_as_planned", 0) + 1
                     continue
